@@ -185,6 +185,7 @@ func (E *Engine) genWalk() string {
 	b.WriteString(`(lemma walkWFL-nth :induction n (forall ((l Seq_Node) (n Int) (i Int)) (! (=> (and (walkWFL l n) (<= 0 i) (< i n)) (walkWF (Seq_Node.nth l i))) :pattern ((walkWFL l n) (Seq_Node.nth l i)))))
 (lemma walkWFL-snoc :induction n (forall ((l Seq_Node) (x Node) (n Int)) (! (=> (<= n (Seq_Node.len l)) (= (walkWFL (Seq_Node.snoc l x) n) (walkWFL l n))) :pattern ((walkWFL (Seq_Node.snoc l x) n)))))
 (lemma walkWFL-slice :induction n (forall ((l Seq_Node) (k Int) (n Int)) (! (=> (and (<= n k) (<= k (Seq_Node.len l))) (= (walkWFL (Seq_Node.slice l 0 k) n) (walkWFL l n))) :pattern ((walkWFL (Seq_Node.slice l 0 k) n)))))
+(lemma walkWFprops-snoc :induction n (forall ((l Seq_Node) (x Node) (n Int)) (! (=> (<= n (Seq_Node.len l)) (= (walkWFprops (Seq_Node.snoc l x) n) (walkWFprops l n))) :pattern ((walkWFprops (Seq_Node.snoc l x) n)))))
 (lemma walkWFprops-nth :induction n (forall ((l Seq_Node) (n Int) (i Int)) (! (=> (and (walkWFprops l n) (<= 0 i) (< i n)) (and ((_ is mk_RenderProperty) (Seq_Node.nth l i)) (walkWF (RenderProperty.Name (Seq_Node.nth l i))) (walkWFopt (RenderProperty.Value (Seq_Node.nth l i))))) :pattern ((walkWFprops l n) (Seq_Node.nth l i)))))
 `)
 	// RenderProperty is never a node of its own in a statement tree
